@@ -483,3 +483,60 @@ func TestVerifRedefineNamed(t *testing.T) {
 		}
 	}
 }
+
+type rdDefIn struct {
+	Struct
+	A int
+	B int
+}
+
+// TestVerifRedefineDefaults: default options attached to the target by NewFunc
+// (a named value, a converter) take part in planning exactly as they take part
+// in calls: a parameter covered by a default value is not declared as an input,
+// a default converter may be planned through, and the returned function works
+// with the remaining inputs.
+func TestVerifRedefineDefaults(t *testing.T) {
+	guard := func(name string, f func()) {
+		defer func() {
+			if r := recover(); r != nil {
+				t.Errorf("FAILING-INPUT redefine defaults %s: panic %v", name, r)
+			}
+		}()
+		f()
+	}
+	guard("named default value", func() {
+		f := MustFunc(NewFunc(func(in rdDefIn) int { return in.A + in.B }, Named("a", 12)))
+		rf, err := f.Redefine(Logger(hclog.NewNullLogger()))
+		if err != nil {
+			t.Errorf("FAILING-INPUT redefine defaults named default value: Redefine failed: %v", err)
+			return
+		}
+		var names []string
+		for _, v := range rf.Input().Values() {
+			names = append(names, v.Name)
+		}
+		if len(names) != 1 || names[0] != "b" {
+			t.Errorf("FAILING-INPUT redefine defaults named default value: declared inputs %v, want [b] (a is supplied by the target's default)", names)
+		}
+		r := rf.Call(Logger(hclog.NewNullLogger()), Named("b", 24))
+		if r.Err() != nil || r.Out(0) != 36 {
+			t.Errorf("FAILING-INPUT redefine defaults named default value: call with b=24 gave %v (err %v), want 36", r, r.Err())
+		}
+	})
+	guard("default converter", func() {
+		f := MustFunc(NewFunc(func(s rT1) string { return "got:" + s.V }, Converter(func(i rT0) rT1 { return rT1{V: i.V + ">1"} })))
+		rf, err := f.Redefine(Logger(hclog.NewNullLogger()), FilterInput(FilterType(rTypes[0])))
+		if err != nil {
+			t.Errorf("FAILING-INPUT redefine defaults default converter: Redefine failed although the target's default converter reaches the permitted input: %v", err)
+			return
+		}
+		vals := rf.Input().Values()
+		if len(vals) != 1 || vals[0].Type != rTypes[0] {
+			t.Errorf("FAILING-INPUT redefine defaults default converter: declared inputs %v, want exactly one of type %v", vals, rTypes[0])
+		}
+		r := rf.Call(Logger(hclog.NewNullLogger()), Typed(rT0{V: "x"}))
+		if r.Err() != nil || r.Out(0) != "got:x>1" {
+			t.Errorf("FAILING-INPUT redefine defaults default converter: call gave %v (err %v), want got:x>1", r, r.Err())
+		}
+	})
+}
